@@ -11,6 +11,7 @@ structure Cfg where
   registerChecksErr : Bool
   unaryDeferUnregister : Bool
   dispatchOutsideLock : Bool
+  closedPrefersCtx : Bool
   okStatusIsSuccess : Bool
   statsHeaderNilSafe : Bool
   recvRechecksDoneOnCtx : Bool
@@ -43,6 +44,6 @@ structure Cfg where
 
 /-- every flag as the property theorems need it (= the repaired tree) -/
 def Cfg.good : Cfg :=
-  { idAllocAtomic := true, registerChecksErr := true, unaryDeferUnregister := true, dispatchOutsideLock := true, okStatusIsSuccess := true, statsHeaderNilSafe := true, recvRechecksDoneOnCtx := true, resetIsError := true, badMetaSetsErr := true, trailerNoPanic := true, closeSendNoopWhenDone := true, finishOrder := true, sendTeardownNoRst := true, openFailureTearsDown := true, unaryBadMetaIsErrorReply := true, unaryCtxFollowsConn := true, workerHandoffSelectsOnConn := true, forwardSelectsOnStreamDone := true, resetViaWriter := true, timeoutSaturates := true, timeoutDigitsOnly := true, badSourceIsIgnored := true, enqueueNonBlocking := true, removeComparesIdentity := true, errReportSelectsOnCtx := true, demuxCancelUsesDone := true, demuxHandoffSelects := true, httpCleanUsesDone := true, httpReadHonoursCtx := true, httpWriteHonoursCtx := true, chainShape := true, streamOnceGuards := true }
+  { idAllocAtomic := true, registerChecksErr := true, unaryDeferUnregister := true, dispatchOutsideLock := true, closedPrefersCtx := true, okStatusIsSuccess := true, statsHeaderNilSafe := true, recvRechecksDoneOnCtx := true, resetIsError := true, badMetaSetsErr := true, trailerNoPanic := true, closeSendNoopWhenDone := true, finishOrder := true, sendTeardownNoRst := true, openFailureTearsDown := true, unaryBadMetaIsErrorReply := true, unaryCtxFollowsConn := true, workerHandoffSelectsOnConn := true, forwardSelectsOnStreamDone := true, resetViaWriter := true, timeoutSaturates := true, timeoutDigitsOnly := true, badSourceIsIgnored := true, enqueueNonBlocking := true, removeComparesIdentity := true, errReportSelectsOnCtx := true, demuxCancelUsesDone := true, demuxHandoffSelects := true, httpCleanUsesDone := true, httpReadHonoursCtx := true, httpWriteHonoursCtx := true, chainShape := true, streamOnceGuards := true }
 
 end Goat
